@@ -318,6 +318,13 @@ class FilterSummary:
                     split(v)
             elif isinstance(e, ast.Name) and at is not None and self._single_def(e, at) is not e:
                 split(self._single_def(e, at))  # one side of the mask kept in a local
+            elif isinstance(e, ast.Call) and call_name(e) == "np.any" and e.args and (
+                (isinstance(e.args[0], ast.BinOp) and isinstance(e.args[0].op, ast.BitOr)) or (isinstance(e.args[0], ast.Call) and call_name(e.args[0]) == "np.logical_or" and len(e.args[0].args) == 2)
+            ):
+                # any(A | B, axis) = any(A, axis) | any(B, axis)
+                inner = e.args[0]
+                for sub in ((inner.left, inner.right) if isinstance(inner, ast.BinOp) else inner.args):
+                    split(ast.copy_location(ast.Call(func=e.func, args=[sub] + list(e.args[1:]), keywords=e.keywords), e))
             else:
                 parts.append(e)
 
